@@ -1,6 +1,8 @@
 package harness
 
 import (
+	"verif/simrt"
+	"strings"
 	"context"
 	"errors"
 	"fmt"
@@ -73,7 +75,14 @@ func (r *c41Resolver) LookupIPAddr(ctx context.Context, host string) ([]net.IPAd
 	}
 	hp := r.p.Hosts[h]
 	if hp.ResolveMs > 0 {
-		time.Sleep(time.Duration(hp.ResolveMs) * time.Millisecond)
+		// like a real resolver, give up when the caller's deadline passes
+		tm := time.NewTimer(time.Duration(hp.ResolveMs) * time.Millisecond)
+		select {
+		case <-tm.C:
+		case <-ctx.Done():
+			tm.Stop()
+			return nil, &net.DNSError{Err: ctx.Err().Error(), Name: host, IsTimeout: true}
+		}
 	}
 	if hp.ResolveErr {
 		return nil, &net.DNSError{Err: "simulated resolver failure", Name: host}
@@ -122,7 +131,7 @@ func c41Run(e *Env, p *c41Plan) {
 		}
 		port++
 		pn := port
-		attempts = append(attempts, attempt{addr, Now(), ""})
+		attempts = append(attempts, attempt{addr, Now(), simrt.CurID()})
 		mu.Unlock()
 		defer func() {
 			mu.Lock()
@@ -181,7 +190,8 @@ func c41Run(e *Env, p *c41Plan) {
 					c.Close()
 					e.Nontrivial = true
 				}
-				slack := holdBudget + 300*time.Millisecond + time.Duration(hp.ResolveMs)*time.Millisecond
+				// the deadline covers the lookup as well as the connects
+				slack := holdBudget + 300*time.Millisecond
 				if took > timeout+slack {
 					e.Violation("timeout-exceeded", "DialTimeout(host%d, %v) returned after %v (err %v)", dl.Host, timeout, took, err)
 					return
@@ -202,10 +212,23 @@ func c41Run(e *Env, p *c41Plan) {
 					}
 				}
 				// on failure (not timeout) every resolved address was tried once in rotation
-				if err != nil && !errors.Is(err, fasthttp.ErrDialTimeout) && !hp.ResolveErr && len(p.Callers) == 1 {
+				if err != nil && !errors.Is(err, fasthttp.ErrDialTimeout) && !hp.ResolveErr {
+					// the connects of this dial: made by tasks the dialer spawned from this caller
+					me := simrt.CurID() + "."
 					mu.Lock()
-					mine := attempts[n0:]
+					var mine []attempt
+					for _, a := range attempts[n0:] {
+						if strings.HasPrefix(a.task, me) {
+							mine = append(mine, a)
+						}
+					}
 					mu.Unlock()
+					if took >= timeout-time.Millisecond {
+						mine = nil // ran out of time: the remaining addresses could not be tried
+					}
+					if mine == nil {
+						continue
+					}
 					if len(mine) != len(hp.Addrs) {
 						e.Violation("not-all-tried", "dial to host%d failed with %v after trying %d of %d resolved addresses", dl.Host, err, len(mine), len(hp.Addrs))
 						return
